@@ -179,13 +179,16 @@ func (h *hooks) Resolve(typeName string, f *gen.FieldDef, p graphql.ResolveParam
 	return raw, nil
 }
 
+// rtKinds: answers of a type resolver (right, nil, a non-member; thorough tier: a panic)
+var rtKinds = 3
+
 func (h *hooks) ResolveType(abstract string, p graphql.ResolveTypeParams) string {
 	path := model.PathString(p.Info.Path.AsArray())
 	key := path + "|rt|" + fmt.Sprint(p.Value)
 	d, ok := h.rtDec[key]
 	if !ok {
 		if h.x != nil {
-			d = h.x.Dev(4, "resolve-type")
+			d = h.x.Dev(rtKinds, "resolve-type")
 		}
 		h.rtDec[key] = d
 		if d != 0 {
@@ -784,6 +787,7 @@ func run(c *core.Ctx) {
 		// first one nulling the whole list)
 		lists bool
 	}
+	rtKinds = c.Pick(3, 4)
 	phases := []phase{{false, 1, false, false}, {true, 2, false, false}, {true, 3, true, false}, {false, 2, false, true}}
 	if !c.Quick() {
 		phases = []phase{{false, 2, false, false}, {true, 3, false, false}, {true, 4, true, false}, {false, 3, false, true}}
@@ -822,6 +826,10 @@ func run(c *core.Ctx) {
 			if ph.deferred {
 				f.h.only = []int{oThunkOK, oThunkErr, oThunkNil, oListThunks}
 			}
+			if ph.lists {
+				// resolver faults of three kinds next to every wrong type answer
+				f.h.only = []int{oNil, oErr, oBadItem}
+			}
 			e := c.Explorer(ph.k) // lattices are sharded, not executions
 			e.Shard, e.NShards, e.ShardLevel = 0, 1, 0
 			e.Run(func(x *explore.X, owned bool) uint64 {
@@ -841,7 +849,7 @@ func run(c *core.Ctx) {
 				}
 				if out.bad != "" {
 					c.Mismatch(out.fid, sigOf(out.bad), fmt.Sprintf("%s, faults %v: %s -- response %s", l, out.troubles, out.bad, out.result),
-						map[string]interface{}{"lattice": li, "reduced": ph.reduced, "choices": x.Trace(), "deferred": ph.deferred})
+						map[string]interface{}{"lattice": li, "reduced": ph.reduced, "choices": x.Trace(), "deferred": ph.deferred, "lists": ph.lists, "rt": rtKinds})
 				}
 				return dig
 			})
@@ -864,6 +872,10 @@ func sigOf(s string) string {
 }
 
 func replay(c *core.Ctx, p map[string]interface{}) (bool, string) {
+	rtKinds = 3
+	if v, ok := p["rt"].(float64); ok {
+		rtKinds = int(v)
+	}
 	li := int(p["lattice"].(float64))
 	reduced, _ := p["reduced"].(bool)
 	var choices []int
@@ -880,6 +892,9 @@ func replay(c *core.Ctx, p map[string]interface{}) (bool, string) {
 	}
 	if d, _ := p["deferred"].(bool); d {
 		f.h.only = []int{oThunkOK, oThunkErr, oThunkNil, oListThunks}
+	}
+	if d, _ := p["lists"].(bool); d {
+		f.h.only = []int{oNil, oErr, oBadItem}
 	}
 	var out outcome
 	explore.Replay(choices, 0, func(x *explore.X, owned bool) uint64 {
